@@ -224,3 +224,8 @@ def floor_alignment(ctx, rule, mb, F, gf, gs):
     n6 = ctx.borrow("C15", "C15.R4.unit-correction", "C03.R6.finite-unit", "NaN bounds: the floor at the counted votes is lost for every nonreporting unit")
     n6 += ctx.borrow("C15", "C15.R4.aggregate-bound", "C03.R6.finite-aggregate", "NaN group bounds are filled with 0: the interval collapses to the counted votes of the reporting units")
     ctx.sites("C03.R6", n6, 2, "location-scale obligations restated from C15.R4")
+    # ---- R7 the floored vector is written into the frame it was computed from ---------------------------------------------
+    # the model steps get the frames returned by get_units, the results handler stores those same frames: a handler that keeps re-indexed or
+    # re-ordered copies is assigned the floored predictions by row label of ANOTHER frame - a unit gets another unit's floor (or NaN)
+    n7 = ctx.borrow("C01", "C01.R2.binding", "C03.R7.same-frames", "the floored prediction of one unit would be published on the row of another")
+    ctx.sites("C03.R7", n7, 2, "frame binding obligations restated from C01.R2")
